@@ -33,7 +33,7 @@ ASSUMPTIONS = ["acceptance bands are 6.5 standard errors wide; a wrong factor (2
                "normality of the increments is not part of the statement and is not tested"]
 TIERS = {"quick": dict(runs=160, budget_s=45, shrink=30, min_nontrivial=2),
          "thorough": dict(runs=900, budget_s=900, shrink=60)}
-REQUIRED_PROBES = ["horizontal", "vertical", "anisotropic", "zero_coefficients", "warm_start_f4"]
+REQUIRED_PROBES = ["horizontal", "vertical", "vertical_with_advection", "anisotropic", "zero_coefficients", "warm_start_f4"]
 CASE_TIMEOUT = 600
 
 
@@ -65,6 +65,9 @@ def generate(seed: int, tier: str, idx: int) -> dict:
         Dz = 0.0
     depth = 1.0e9
     an = {"dx": dx, "dy": dy, "depth": depth, "size": 1.0e9, "flow": {"kind": "still"}}
+    if kind == "diff" and Dz and s.chance(0.4):
+        # vertical advection on top of the vertical random walk: the drift is w*dt, the spread is unchanged
+        an["w0"] = float(f"{s.pick([-1, 1]) * 10 ** s.uniform(-1, 1) * math.sqrt(2 * Dz / dt):.6g}")
     if kind == "zero":
         an["flow"] = {"kind": "rot", "om0": 0.3 / dt, "xc": 0.0, "yc": 0.0}
         N = 2000
@@ -83,6 +86,8 @@ def features(sc) -> set[str]:
         f.add("vertdiff")
     if sc["analytic"]["dx"] != sc["analytic"]["dy"]:
         f.add("anisotropic_metric")
+    if sc["analytic"].get("w0"):
+        f.add("vertical_advection")
     return f
 
 
@@ -101,6 +106,10 @@ def base_reductions(sc):
         c = copy.deepcopy(sc)
         c["analytic"]["dy"] = sc["analytic"]["dx"]
         yield "isotropic", c
+    if sc["analytic"].get("w0"):
+        c = copy.deepcopy(sc)
+        c["analytic"].pop("w0")
+        yield "no_w", c
     if pl["advection"] != "EF":
         c = copy.deepcopy(sc)
         c["plan"]["advection"] = "EF"
@@ -120,6 +129,8 @@ def scenario(sc) -> dict:
         tr["diffusion"] = pl["D"]
     if pl["Dz"]:
         tr["vertdiff"] = pl["Dz"]
+    if sc["analytic"].get("w0"):
+        tr["vertical_advection"] = True
     return {
         "world": "analytic", "analytic": sc["analytic"], "flow": {}, "frames": {},
         "time": {"start": "2000-01-01T00:00:00", "dt": pl["dt"], "nsteps": pl["nsteps"]},
@@ -209,6 +220,7 @@ def execute(sc) -> Result:
         dx, dy = sc["analytic"]["dx"], sc["analytic"]["dy"]
         sig = {"X": math.sqrt(2 * pl["D"] * dt) / dx, "Y": math.sqrt(2 * pl["D"] * dt) / dy,
                "Z": math.sqrt(2 * pl["Dz"] * dt)}
+        drift = {"X": 0.0, "Y": 0.0, "Z": float(sc["analytic"].get("w0", 0.0)) * dt}
         se_mean = K / math.sqrt(N)
         se_var = K * math.sqrt(2.0 / N)
         se_corr = K / math.sqrt(N)
@@ -228,9 +240,10 @@ def execute(sc) -> Result:
                     if np.any(d != 0.0):
                         res.add(Violation("C11.variance", n, f"d{name} with zero coefficient", float(np.abs(d).max()), 0.0))
                     continue
-                m = float(d.mean())
+                m = float(d.mean()) - drift[name]
                 if abs(m) > se_mean * s_:
-                    res.add(Violation("C11.mean", n, f"mean of d{name} / sigma", m / s_, f"|.| <= {se_mean:.4g}"))
+                    res.add(Violation("C11.mean", n, f"(mean of d{name} - drift {drift[name]:.6g}) / sigma", m / s_,
+                                      f"|.| <= {se_mean:.4g}"))
                 var = float(d.var())
                 if abs(var / (s_ * s_) - 1.0) > se_var:
                     res.add(Violation("C11.variance", n, f"var(d{name}) / expected ({s_ * s_:.6g})", var / (s_ * s_),
@@ -270,6 +283,8 @@ def execute(sc) -> Result:
                     res.probes["anisotropic"] += 1
             if pl["Dz"]:
                 res.probes["vertical"] += 1
+            if sc["analytic"].get("w0"):
+                res.probes["vertical_with_advection"] += 1
     finally:
         world.rm_dir(run.dir)
     return res
